@@ -173,6 +173,8 @@ def check_loop(ctx, key):
     stores = {st: simloop.classify_store(st, sname, sl.f) for st in simloop.state_stores(sl.f, sname)}
     rec_loops = [n for n in ast.walk(sl.loop) if isinstance(n, ast.While) and n is not sl.loop and 'c_timepoints[current_index]' in src(n.test)]
     if len(rec_loops) != 1:
+        rec_loops = [n for n in ast.walk(sl.loop) if isinstance(n, ast.While) and n is not sl.loop]
+    if len(rec_loops) != 1:
         raise AnalysisError('%s: recording loop not found' % key)
     rec = rec_loops[0]
     pths = sl.iteration_paths()
@@ -263,10 +265,10 @@ def check_loop(ctx, key):
     ctx.ob('R5.2-event-time', key, not probs['time'], sl.where,
            'a reaction is applied only at the event time sampled in this iteration (never at a grid time)', fmt(probs['time']))
     # recording loop condition and store
-    ok = src(rec.test).replace(' ', '') == 'current_index<num_timepointsandc_timepoints[current_index]<=current_time'
+    ok = util.canon_test(rec.test) == '(c_timepoints[current_index]<=current_time and current_index<num_timepoints)'
     ctx.ob('R5.2-record-condition', key, ok, sl.loc(rec), 'rows are recorded for every time point <= the new current time', src(rec.test))
     # loop termination variable
-    ok = src(sl.loop.test).replace(' ', '') == 'current_index<num_timepoints'
+    ok = util.canon_test(sl.loop.test) == 'current_index<num_timepoints'
     ctx.ob('R5.2-loop-condition', key, ok, sl.where, 'the loop runs until all time points are recorded', src(sl.loop.test))
 
 
